@@ -25,6 +25,7 @@ class Model:
         self.classes = []
         self.index = {}
         self.adopted = False
+        self.told = {}  # label -> emptiness a client set through set_empty
 
     def label_of(self, c, create=True):
         if c not in self.index:
@@ -158,6 +159,13 @@ def emptiness_matches_class(self, comb_class, label, result):
         return True
     truth = bool(comb_class.is_empty())
     if bool(result) != truth:
+        m = model_of(self)
+        lab = label if label is not None else m.label_of(comb_class, create=False)
+        if lab is not None and m.told.get(lab) == bool(result):
+            # a client *told* the database so (the searcher trusts possibly_empty=False of a
+            # strategy): the cache faithfully holds what it was given - not the database's doing
+            cx.count("classdb.emptiness_as_told_by_client_not_judged")
+            return True
         cx.violation("C15:emptiness-wrong", f"is_empty({comb_class!r}, {label}) = {result}, the class "
                      f"itself says {truth}", None, raise_=False)
         return False
@@ -175,6 +183,20 @@ def add_recorded(self, comb_class, compressed):
     if not compressed and _is_class(self, comb_class):
         model_of(self).label_of(comb_class)
     return True
+
+
+def told_recorded(self, key, empty):
+    if _DEPTH[0] > 0:
+        return True
+    m = model_of(self)
+    lab = key if isinstance(key, int) and not isinstance(key, bool) else m.label_of(key, create=False)
+    if lab is not None:
+        m.told[lab] = bool(empty)
+    return True
+
+
+def _err_told(self, key, empty):
+    return base.Violation("C15:contract", "ClassDB.set_empty")
 
 
 def _err_key(self, key):
@@ -211,6 +233,14 @@ def _with_depth(orig, names, defaults=""):
     return body
 
 
+def _plain(orig):
+    def body(self, key, empty=True):
+        return orig(self, key, empty)
+
+    body.__name__ = orig.__name__
+    return body
+
+
 def install():
     from comb_spec_searcher import class_db
 
@@ -228,4 +258,6 @@ def install():
         _with_depth(C.is_empty, ["self", "comb_class", "label"], "self, comb_class, label=None"))
     C.add = icontract.ensure(add_recorded, error=_err_add)(
         _with_depth(C.add, ["self", "comb_class", "compressed"], "self, comb_class, compressed=False"))
+    # set_empty is *not* depth-wrapped: the get_label it makes is a client-level look-up
+    C.set_empty = icontract.ensure(told_recorded, error=_err_told)(_plain(C.set_empty))
     class_db.ClassDB = icontract.invariant(lists_parallel, error=_err_inv)(C)
